@@ -2,6 +2,7 @@
 import itertools
 from valve_common import *
 from u2_common import u2_specs, u2_case
+from gs_common import gs_specs, gs_case
 
 ID = "C08"
 PROPS_FILE = "C08"
@@ -68,6 +69,30 @@ def gen_cases(tier, rng):
                 script = [evs[0]] + (g2 if which == "mr" else mr) + [None] + (g2 if which == "pl" else pl)
                 cases.append({"id": "u2perm/%d/%s/%d" % (u["seed"], which, pi), "hex": u2_case(7778, (2, 2), None, script),
                               "meta": {"stream": "unreal2-permutation", "expected": "Ok(" + u["expected"] + ")", "identity": list(perm) == sorted(perm), "k": k, "proto": "unreal2"}})
+    # GameSpy 1 parts and GameSpy 3 splitnum packets: every arrival order, every duplication
+    for ver in (1, 3):
+        nsp = 0
+        for g in gs_specs(ver, [rng.next() >> 1 for _ in range(300 if tier == "quick" else 3000)]):
+            evs = g["events"]
+            head, frags = ([], evs) if ver == 1 else (evs[:1], evs[1:])
+            k = len(frags)
+            if not g["fits"] or k < 2 or k > maxfrag:
+                continue
+            nsp += 1
+            if nsp > (25 if tier == "quick" else 300):
+                break
+            perms = list(itertools.permutations(range(k)))
+            if k >= 6:
+                rr = rng.fork("gsperm%d" % g["seed"])
+                perms = [perms[rr.below(len(perms))] for _ in range(120)]
+            for pi, perm in enumerate(perms):
+                cases.append({"id": "gs%dperm/%d/%d" % (ver, g["seed"], pi), "hex": gs_case(ver, 7777, 0, None, head + [frags[j] for j in perm]),
+                              "meta": {"stream": "gamespy%d-permutation" % ver, "expected": "Ok(" + g["expected"] + ")", "identity": list(perm) == sorted(perm), "k": k}})
+            for j in range(k):
+                for pos in range(k + 1):
+                    f2 = frags[:pos] + [frags[j]] + frags[pos:]
+                    cases.append({"id": "gs%ddup/%d/%d/%d" % (ver, g["seed"], j, pos), "hex": gs_case(ver, 7777, 0, None, head + f2),
+                                  "meta": {"stream": "gamespy%d-duplicate" % ver, "expected": "Ok(" + g["expected"] + ")", "k": k}})
     return cases
 
 
@@ -80,6 +105,8 @@ def oracle(case, impl, side):
         if res != exp:
             if case["meta"].get("proto") == "unreal2":
                 return ("order-dependent:unreal2", "Unreal 2: a reordering of the same datagrams changed the response (lists carry no sequence numbers)")
+            if case["meta"]["stream"].startswith("gamespy"):
+                return ("order-dependent:" + case["meta"]["stream"].split("-")[0], "%s: a reordering of the same datagrams changed the result: got %s expected %s" % (case["meta"]["stream"], res[:200], exp[:200]))
             return ("order-dependent", "a reordering of the same datagrams changed the response: got %s expected %s" % (res[:200], exp[:200]))
     else:
         if res.startswith("Ok(") and res != exp:
